@@ -54,6 +54,17 @@ pub fn inflator_interleavings(run: &Run, property: &str) {
             rows.push(json!({"scenario": name, "heights_per_thread": threads, "preemption_bound": bound, "result": l}));
             continue;
         }
+        if let Some(l) = stdout.lines().find(|l| l.starts_with("LOOMLAB-PANIC")) {
+            run.outcome("loom:inflator:panic-under-some-interleaving");
+            run.violation(
+                property,
+                "inflator-table/interleaving/panic".into(),
+                format!("loom found an interleaving of {} (heights asked per thread, preemption bound {}) in which the inflator lookup panics: {}", threads, bound, l),
+                json!({"loomlab": ["run", name, bound], "heights_per_thread": threads, "extracted": info}),
+            );
+            rows.push(json!({"scenario": name, "heights_per_thread": threads, "preemption_bound": bound, "result": l}));
+            continue;
+        }
         if out.status.success() {
             let ok = stdout.lines().find(|l| l.starts_with("LOOMLAB scenario=")).unwrap_or("");
             let n: u64 = ok.split_whitespace().find_map(|w| w.strip_prefix("schedules=")).and_then(|x| x.parse().ok()).unwrap_or(0);
@@ -133,6 +144,12 @@ pub fn stf_interleavings(run: &Run, property: &str, scenarios: &[&str]) {
                 format!("loom found an interleaving (or a way of cutting the batch) of apply_tx_batch on the batch '{}' whose result differs from the sequential one: {} {}", name, l, detail),
                 json!({"stfloom": ["run", name, bound], "mismatch": l, "detail": detail}),
             );
+            rows.push(json!({"scenario": name, "result": l}));
+            continue;
+        }
+        if let Some(l) = stdout.lines().find(|l| l.starts_with("STFLOOM-PANIC")) {
+            run.outcome("loom:apply_tx_batch:panic-under-some-interleaving");
+            run.violation(property, "apply_tx_batch/interleaving/panic".into(), format!("loom found an interleaving of apply_tx_batch on '{}' in which it panics: {}", name, l), json!({"stfloom": ["run", name, bound], "panic": l}));
             rows.push(json!({"scenario": name, "result": l}));
             continue;
         }
